@@ -41,6 +41,9 @@ RULE = (
     "BlockListChangedEvent, ScanCompleteEvent: the library has to reconcile whatever they do. 0..2 paused downloads "
     "sit at the front of the transfer list and the local user may remove a transfer (by list position) 1..250 ms "
     "after a change that revokes permissions, i.e. while the reconciliation of several uploads is in progress. "
+    "Directories are configured and added in every order (inner before outer included); a reload operation replaces "
+    "settings.shares.directories by a shorter list (1..3 directories dropped at once, adjacent ones included) and "
+    "applies it with load_from_settings() + scan() as start() does. "
     "Oracle = reference entitlement computed from the harness' own model of the configuration: visible(u,f) iff the "
     "innermost shared directory containing f admits u; may_upload(u,f) iff visible and u not blocked for UPLOADS. At "
     "the scripted peers: every PeerSearchReply.results / PeerSharesReply.directories / "
@@ -192,7 +195,7 @@ class Model:
 
 _FLAGS = st.one_of(st.sampled_from([4, 8, 32, 32, 63, 44, 12, 36, 40, 3, 16, 31]), st.integers(0, 63))
 _USERLIST = st.lists(st.integers(0, 2), unique=True, max_size=3)
-_DIRSETS = [[0], [3], [0, 1], [0, 1, 2], [1], [0, 3], [3, 4], [0, 2], [1, 2], [0, 1, 3], [5], [0, 5], [2, 4, 5],
+_DIRSETS = [[1, 0, 2], [2, 1, 0], [1, 2, 0], [2, 0, 1], [1, 0], [1, 0, 2], [4, 3], [7, 0, 1], [0], [3], [0, 1], [0, 1, 2], [1], [0, 3], [3, 4], [0, 2], [1, 2], [0, 1, 3], [5], [0, 5], [2, 4, 5],
             [0, 4], [0, 1, 4], [0, 6], [0, 6], [0, 1, 6], [1, 7], [0, 1, 7], [1, 7, 6], [6], [0, 7], [3, 6, 0]]
 
 
@@ -260,7 +263,7 @@ def _flip_op(draw, m, targets):
 @st.composite
 def _op(draw, m, targets):
     kinds = (['search'] * 6 + ['shares'] * 2 + ['dirreq'] * 2 + ['queue'] * 5 + ['treq'] * 3 + ['friend'] * 2 +
-             ['block'] * 3 + ['setmode'] * 2 + ['adddir'] * 3 + ['rmdir'] * 2 + ['rescan'] + ['phrases'] +
+             ['block'] * 3 + ['setmode'] * 2 + ['adddir'] * 3 + ['rmdir'] * 2 + ['rescan'] + ['reload'] * 2 + ['phrases'] +
              ['user'] * 4 + ['adv'] * 8 + (['flip'] * 12 + ['again'] * 5 if targets else []))
     kind = draw(st.sampled_from(kinds))
     if kind == 'again':
@@ -309,6 +312,8 @@ def _op(draw, m, targets):
         return {'t': 'rmdir', 'd': pos, 'scan': draw(st.sampled_from([0, 0, 2]))}
     if kind == 'rescan':
         return {'t': 'rescan', 'd': draw(st.integers(0, 3))}
+    if kind == 'reload':
+        return {'t': 'reload', 'drop': draw(st.sampled_from([1, 2, 3, 3, 3, 6, 6, 7, 4, 5, 12]))}
     if kind == 'phrases':
         return {'t': 'phrases', 'p': draw(st.lists(st.sampled_from(PHRASES), max_size=2))}
     if kind == 'user':
@@ -383,6 +388,10 @@ def _apply_to_model(m, op):
         m.shared[op['d']] = [op['mode'], set(op['users'])]
     elif t == 'rmdir' and m.shared:
         del m.shared[sorted(m.shared)[op['d'] % len(m.shared)]]
+    elif t == 'reload':
+        for i, d in enumerate(sorted(m.shared)):       # approximation: the library keeps insertion order
+            if (op['drop'] >> (i % 6)) & 1:
+                del m.shared[d]
 
 
 @st.composite
@@ -470,7 +479,11 @@ def case_strategy(draw, avoid=False):
         if op['t'] in ('queue', 'treq') and VARIANTS[op['var']] == 'exact' and m.may_upload(op['u'], op['f']) \
                 and (op['u'], op['f'], op['via']) not in targets:
             targets.append((op['u'], op['f'], op['via']))
-        if op['t'] in ('block', 'friend', 'setmode', 'adddir', 'rmdir') and len(ops) < n and \
+        if op['t'] in ('rmdir', 'reload') and len(ops) < n and draw(st.booleans()):
+            # who sees what right after a directory went away
+            ops.append(draw(st.sampled_from([{'t': 'shares', 'u': draw(st.integers(0, 2))},
+                                             {'t': 'search', 'u': draw(st.integers(0, 2)), 'c': 0, 'q': 0}])))
+        if op['t'] in ('block', 'friend', 'setmode', 'adddir', 'rmdir', 'reload') and len(ops) < n and \
                 draw(st.integers(0, 9)) < 6:
             ops.append({'t': 'adv', 'dt': 3})
     return {
@@ -571,6 +584,8 @@ def _sanitise(case):
             ops.append({'t': t, 'd': g('d') % 3, 'scan': 2 if g('scan') % 3 == 2 else 0, 'gap': gap})
         elif t == 'rescan':
             ops.append({'t': t, 'd': g('d') % 4})
+        elif t == 'reload':
+            ops.append({'t': t, 'drop': g('drop') % 64, 'gap': gap})
         elif t == 'phrases':
             ops.append({'t': t, 'p': _phrases(op.get('p'))})
         elif t == 'user':
@@ -756,6 +771,7 @@ def run_case(case) -> CaseResult:
                 return FILE_BY_TUPLE.get(CAND[ci] + tuple(parts[1:]))
 
             # ---- library observation (strings only) ---------------------------
+            misplaced = set()    # files whose item was at some point held by a shared directory other than the innermost
             tainted = set()      # files that were at some point held by an item referring to another directory
 
             def note_stale():
@@ -772,8 +788,15 @@ def run_case(case) -> CaseResult:
                         f = FILE_BY_TUPLE.get(ft)
                         if f is not None and ft[:len(holder)] == holder:
                             tainted.add(f)
+                            inner = model.innermost(f)
+                            if inner is not None and CAND[inner] != holder:
+                                # not the listed finding (item keeps its old directory) but an item handed to a
+                                # directory that is not the closest remaining shared parent
+                                misplaced.add(f)
 
             def K(what, f=None):
+                if f is not None and f in misplaced:
+                    return f'C08/item-handed-to-wrong-parent:{what}'
                 if f is not None and f in tainted:
                     return f'C08/{STALE}:{what}'
                 return f'C08/{what}'
@@ -1288,6 +1311,29 @@ def run_case(case) -> CaseResult:
                         note_stale()
                         if scan == 2:
                             await lib('scan', shares.scan)
+                elif t == 'reload':
+                    # settings.shares.directories replaced by a shorter list (same order, current modes) and applied
+                    # the way start() does it: load_from_settings() followed by a scan
+                    from aioslsk.settings import SharedDirectorySettingEntry
+                    order = []
+                    for sd in shares.shared_directories:
+                        tup = tuple(os.path.relpath(os.path.normpath(sd.absolute_path), root).split(os.sep))
+                        if tup in CAND and CAND.index(tup) in model.shared:
+                            order.append(CAND.index(tup))
+                    dropped = [d for i, d in enumerate(order) if (op['drop'] >> (i % 6)) & 1]
+                    keep = [d for d in order if d not in dropped]
+                    res.label('reload:drop%d' % len(dropped) + (':adjacent' if any(
+                        order[i] in dropped and order[i + 1] in dropped for i in range(len(order) - 1)) else ''))
+                    client.settings.shares.directories = [
+                        SharedDirectorySettingEntry(
+                            path=apath(CAND[d]), share_mode=DirectoryShareMode(MODES[model.shared[d][0]]),
+                            users=[USERS[x] for x in sorted(model.shared[d][1])]) for d in keep]
+                    await lib('load_from_settings', shares.load_from_settings)
+                    for d in dropped:
+                        del model.shared[d]
+                    note_stale()
+                    await lib('scan', shares.scan)
+                    state['index_dirty'] = False
                 elif t == 'rescan':
                     if op['d'] == 3 or not model.shared:
                         await lib('scan', shares.scan)
